@@ -12,9 +12,16 @@ OBLIGATIONS = [
     (P + "any_chunking_eq_single", "for all byte strings/limits/boundaries: outcome (status and parts) of any chunking = outcome of the one-chunk delivery"),
     (P + "chunking_independent", "cs1.join = cs2.join -> run cs1 = run cs2 (status and delivered parts)"),
     (P + "request_chunking_independent", "the same for the whole request (up-front limits, multipart / urlencoded / other bodies)"),
+    (P + "feed_flatten", "the pieces get_buffer() lets through are the first content_length bytes of the stream, whatever the reads return and whatever the buffer size"),
+    (P + "requestIO_cut_independent", "reads of any sizes, any buffer size, even a peer sending more than declared: what the application sees depends only on the byte stream"),
     (P + "matcher_correct", "content without the delimiter followed by the delimiter is emitted exactly; guard: CR not in the boundary key"),
     (P + "matcher_needs_guard_counterexample", "with a CR inside the boundary key the hand-rolled restart misses a delimiter"),
     (P + "multipart_roundtrip", "body built from accepted header blocks and delimiter-free contents, any chunking -> exactly those parts in order"),
+    (P + "limits_respected", "declared length over the multipart limit (multipart) / content limit (other) -> 413 before any byte is looked at, whatever the bytes"),
+    (P + "refused_not_partial", "a refused request delivers no field and no file"),
+    (P + "raw_filter_sees_each_byte_once", "raw content filter: concatenation of the chunks it is given = the first content_length bytes, each once, in order; completes exactly at content_length"),
+    (P + "malformed_urlencoded_refused", "a urlencoded POST body within limits with an item without '=' or with an empty name is refused with 400 (D11, fixed)"),
+    (P + "urlencoded_witness", "the D11 witness a=b&c&e=f: parse_form_urlencoded has inserted a=b when it fails"),
 ]
 
 TOKEN_CHARS = bytes(c for c in range(33, 127) if c not in b'()<>@,;:\\"/[]?={}')
